@@ -206,6 +206,7 @@ def run_property(prop, checker, meta, repo_root, tier, evidence_dir=None, quiet=
             "checker_cmd": f"/venv/bin/python /verif/bsa/check.py --property {prop} --tier {tier}",
             "error": error,
             "extra": dict(meta.get("extra", {}), **(ctx.extra if ctx else {})),
+            "normal_form": _normal_form_summary(ctx),
         },
         "assumptions": meta.get("assumptions", []),
         "wall_s": round(time.time() - t0, 3),
@@ -216,6 +217,23 @@ def run_property(prop, checker, meta, repo_root, tier, evidence_dir=None, quiet=
     say(f"[{prop}] tier={tier} obligations={len(obs)} holds={n_h} violated_new={len(new)} "
         f"known={len(listed)} undecided={len(und)} analysed={ctx.analysed if ctx else {}} exit={code}")
     return code
+
+
+def _normal_form_summary(ctx):
+    """what the normaliser (bsa/normalize.py) did to the tree that was analysed on this run"""
+    nz = getattr(getattr(ctx, "repo", None), "normalizer", None) if ctx else None
+    if nz is None:
+        return {}
+    return {
+        "rule": "new helpers/constants (not in reference/inventory.json) are inlined; spelling, alias and shape passes applied to every function",
+        "helpers_inlined": sorted({f"{h} -> {f}" for f, h, _ in nz.log})[:60],
+        "helpers_removed_after_inlining": list(getattr(nz, "dropped", []))[:60],
+        "helpers_left_opaque": sorted({f"{h} in {f}: {why}" for f, h, why in nz.bailed})[:40],
+        "constants_substituted": sorted({f"{m}.{n}" for m, n in nz.const_subst})[:40],
+        "alias_or_literal_substitutions": getattr(nz, "alias_subst", 0),
+        "spelling_rewrites": getattr(nz, "spelling_changes", 0),
+        "shape_rewrites": getattr(nz, "shape_changes", 0),
+    }
 
 
 def append_selftest_evidence(prop, st, evidence_dir=None):
